@@ -581,6 +581,8 @@ func init() {
 			{name: "static-pem+email-claim+skip-profile", cfg: proxyCfg{SkipJwtBearer: true, StaticKeys: "pem", EmailClaim: "upn", SkipClaimsFromProfile: true, ExtraAudiences: []string{tkExtraAud}, CookieRefresh: time.Hour}},
 			{name: "userid-claim+skip-issuer+2-extra", nExtra: 2, cfg: proxyCfg{SkipJwtBearer: true, UserIDClaim: "preferred_username", SkipIssuerCheck: true, ExtraAudiences: []string{tkExtraAud}, CookieRefresh: time.Hour}},
 			{name: "azp+1-extra", nExtra: 1, cfg: proxyCfg{SkipJwtBearer: true, AudienceClaims: []string{"azp", "aud"}, CookieRefresh: time.Hour}},
+			// both the current and the deprecated e-mail option set to different claims: the current one decides
+			{name: "email-claim+userid-claim", cfg: proxyCfg{SkipJwtBearer: true, EmailClaim: "upn", UserIDClaim: "preferred_username", CookieRefresh: time.Hour}},
 		}
 		var runs []*tkRun
 		for si, sp := range specs {
